@@ -33,6 +33,8 @@ class AES128Proxy(AES128Base):
         return ciphertext
 
     def decrypt(self, data: bytes) -> bytes:
+        if len(data) % AES128Base.BLOCK_SIZE != 0:
+            raise ValueError("Encrypted data is not a multiple of the AES block size")
         mode = aes.AESModeOfOperationCBC(self._key, self._iv)
         decryptor = blockfeeder.Decrypter(mode, padding="none")
         plaintext_padded = decryptor.feed(data)
